@@ -135,6 +135,10 @@ def shapes_catalog(tier):
                 dict(fam="transform", sample=True, boundary=True)))
     out.append(("Rotate[s](Circle[t])", lambda env: SH.rotate(env, SH.circle(env, tag="A", dep="t", dep_center=True), dep="s"),
                 dict(fam="transform", sample=True)))
+    # the pivot of the rotation depends on the variable that gets fixed
+    out.append(("Rotate[s;pivot(t)](Circle[t])",
+                lambda env: SH.rotate(env, SH.circle(env, tag="A", dep="t"), dep="s", around_dep="t"),
+                dict(fam="transform", sample=True)))
     if not quick:
         out.append(("Rotate[s](Parallelogram[t])", lambda env: SH.rotate(env, SH.parallelogram(env, tag="A", dep="t"), dep="s"),
                     dict(fam="transform", sample=True)))
